@@ -37,6 +37,10 @@ CHECKS = {
  'C02': ('exploration', 'runtime monitor: reference-model oracle + metamorphic oracles on the real engine (TOP n = prefix of the unbounded run for every n, DESC = reverse of ASC) + read-budget trace automaton over an unbounded lazy input; JS leg via node',
          'Every bound n in 0..|out|+1 of thousands of generated sort/dedup/truncate queries is executed; bounded streaming queries run over an unbounded input whose iterator raises once the budget p_(n+1) is exceeded; held on the executions observed.',
          'Trusted: rv/model/refsem.py. The termination clause is restated as bounded progress (reads <= position of the record producing output n+1).', 'DESIGN.md#c02'),
+
+ 'C03': ('exploration', 'runtime monitor: reference-model oracle (groups as lists, exact rational arithmetic) over generated aggregate queries x numeric tables, observed through the probe writer; JS leg via node with the known key-order finding classified by mechanism',
+         'Tens of thousands of generated aggregate queries (all nine aggregates in three spellings, 0-2 group keys, WHERE, TOP) are executed and every cell compared with exactly computed values; held on the executions observed.',
+         'Trusted: rv/model/refsem.py aggregate(); tolerance 1e-9 relative for floating-point aggregates.', 'DESIGN.md#c03'),
 }
 
 NOT_YET = 'check not registered yet (machinery under construction; see DESIGN.md section 3a build order)'
